@@ -118,7 +118,8 @@ def build_deep(src):
     prev = 'x'
     for k in range(n):
         if shape == 'and-or':
-            t, ops = (('AND', (prev, 'y')) if k % 3 == 0 else ('OR', ('y', prev)) if k % 3 == 1 else ('NAND', (prev, prev)))
+            # every gate is injective in its chain operand when y = 1, so a wrong template anywhere shows at the outputs
+            t, ops = (('AND', (prev, 'y')) if k % 3 == 0 else ('NAND', ('y', prev)) if k % 3 == 1 else ('NOR', (prev, prev)))
         else:
             t, ops = (('XOR', (prev, 'y')) if k % 2 else ('NOT', (prev,)))
         gates.append((f'g{k}', t, ops))
